@@ -105,6 +105,7 @@ func rulesC07(c *Ctx) {
 	c07Repeat(c, "storage/mkvs/db/pathbadger")
 	c07RepeatSupport(c)
 	c07Round3(c, c.P.BuildIndex())
+	c07Round4(c, c.P.BuildIndex())
 	if fn := c.needFn(rule, "storage/mkvs/db/badger.(*badgerNodeDB).Finalize"); fn != nil {
 		flush := CallsTo(fn, "versionBatch.Flush", bWB+".Flush", "NewWriteBatchAt")
 		commit := CallsTo(fn, "tx.CommitAt", bTX+".CommitAt", "")
